@@ -32,12 +32,31 @@ const (
 	fmtPcapNsBE
 	fmtPcapngLE
 	fmtPcapngBE
+	// the snap length in the file / interface header is what the writer was configured with,
+	// not a bound on the records that follow (writers put a constant there; files with longer
+	// records exist): header values smaller than every frame, and zero
+	fmtPcapSnap16
+	fmtPcapSnap0
+	fmtPcapngSnap16
+	fmtPcapngSnap0
 )
 
-var fmtNames = []string{"pcap-le", "pcap-be", "pcap-ns-le", "pcap-ns-be", "pcapng-le", "pcapng-be"}
+var fmtNames = []string{"pcap-le", "pcap-be", "pcap-ns-le", "pcap-ns-be", "pcapng-le", "pcapng-be", "pcap-le-snaplen16", "pcap-le-snaplen0", "pcapng-le-snaplen16", "pcapng-le-snaplen0"}
 
-func isPcapng(f int) bool { return f == fmtPcapngLE || f == fmtPcapngBE }
-func isBE(f int) bool     { return f == fmtPcapBE || f == fmtPcapNsBE || f == fmtPcapngBE }
+func isPcapng(f int) bool {
+	return f == fmtPcapngLE || f == fmtPcapngBE || f == fmtPcapngSnap16 || f == fmtPcapngSnap0
+}
+
+func snapLen(f int) uint32 {
+	switch f {
+	case fmtPcapSnap16, fmtPcapngSnap16:
+		return 16
+	case fmtPcapSnap0, fmtPcapngSnap0:
+		return 0
+	}
+	return 262144
+}
+func isBE(f int) bool { return f == fmtPcapBE || f == fmtPcapNsBE || f == fmtPcapngBE }
 
 // onesSum is the 16 bit one's complement sum used by IP and TCP checksums.
 func onesSum(sum uint32, b []byte) uint32 {
@@ -208,7 +227,7 @@ func captureFile(format int, link int, frames [][]byte) []byte {
 		out = u16(out, 4)
 		out = u32(out, 0)
 		out = u32(out, 0)
-		out = u32(out, 262144)
+		out = u32(out, snapLen(format))
 		out = u32(out, uint32(link))
 		for i, f := range frames {
 			out = u32(out, 1700000000+uint32(i))
@@ -232,7 +251,7 @@ func captureFile(format int, link int, frames [][]byte) []byte {
 	out = u32(out, 20)
 	out = u16(out, uint16(link))
 	out = u16(out, 0)
-	out = u32(out, 262144)
+	out = u32(out, snapLen(format))
 	out = u32(out, 20)
 	for i, f := range frames {
 		pad := (4 - len(f)%4) % 4
